@@ -10,7 +10,8 @@ META = dict(
               "default (one spy each); context-style and legacy 3-argument signatures; classifier returns "
               "Classification objects with retry_after_s (selection jobs: distinct concrete raw values, frozen clock); "
               "sanitisation jobs: one class, every raw strategy value a solver choice of {any real, NaN, +inf, -inf}, "
-              "symbolic durations, overshoots and deadline (so `remaining` matters); sleep handler SLEEP/DEFER job",
+              "symbolic durations, overshoots and deadline (so `remaining` matters); sleep handler SLEEP/DEFER job; a job in "
+              "which the strategy itself takes a solver-real time (delay must stay within [0, remaining told to it])",
         thorough="N=4",
     ),
     assumptions=["floats as reals, NaN/+inf/-inf injected explicitly", "TD linear timedelta stub", "attempt_timeout_s None"],
@@ -18,7 +19,7 @@ META = dict(
 )
 GOALS = ["class_strategy_used", "default_strategy_used", "class_changes_between_failures", "nan_to_zero", "inf_to_zero",
          "negative_to_zero", "capped_at_remaining", "prev_sleep_is_applied_delay", "legacy_signature", "deferred_next_sleep",
-         "retry_after_passed"]
+         "retry_after_passed", "strategy_took_time"]
 
 
 def h_run(sym, params):
@@ -96,6 +97,21 @@ def check_delay(w, trace, result, sym):
             base = raw if raw > 0 else 0
         applied = base if base < remaining else remaining
         sym.cover("capped_at_remaining", remaining < base)
+        if w.p.get("strat_time"):
+            # the strategy itself took time: whichever instant 'remaining' refers to, the delay handed on must be
+            # sanitised (>= 0), must not exceed the remaining time the strategy was told, and is the raw value when
+            # that fits even into what is left afterwards
+            t_after = next((e[2] for e in sl), None)
+            for name, val in ([("retry event", retry[0][3])] if retry else []) + [("sleeper", e[1]) for e in sl]:
+                if val < 0:
+                    return ("negative_delay", f"{name} got the negative delay {val} (strategy took time; raw {raw}, remaining {remaining})")
+                if val > remaining:
+                    return ("delay_exceeds_remaining", f"{name} got {val} with {remaining} remaining when the strategy was consulted")
+            sym.cover("strategy_took_time", len(sl) >= 1)
+            if retry:
+                prev_applied = retry[0][3]
+            prev_class = klass
+            continue
         if retry:
             if retry[0][3] != applied:
                 return ("retry_event_sleep_s", f"`retry` event reports sleep_s={retry[0][3]}, expected {applied} (raw {raw}, remaining {remaining})")
@@ -141,6 +157,10 @@ def jobs(tier):
                             params=dict(entry=entry, N=N, kinds=["exc"], classes=["TRANSIENT"], max_attempts=N + 1,
                                         timed=True, strat=dict(raw="any"), pin={"rawkind1": rk1}),
                             max_wall_s=wall, weight=3))
+        out.append(dict(name=f"strat_time:{entry}", harness="rv.props.c05:h_run",
+                        params=dict(entry=entry, N=2 if q else 3, kinds=["exc"], classes=["TRANSIENT"], max_attempts=N + 1,
+                                    timed=True, strat_time=True, strat=dict(raw="real")),
+                        max_wall_s=wall, weight=2))
         out.append(dict(name=f"defer:{entry}", harness="rv.props.c05:h_run",
                         params=dict(entry=entry, N=2 if q else 3, kinds=["exc", "res"], classes=["TRANSIENT"],
                                     max_attempts=N + 1, timed=True, handler=True, strat=dict(raw="any")),
